@@ -163,8 +163,12 @@ var spdxIDPool = []string{"a", "b", "c", "pkg-1.0", "lib.so", "A-b.C", "n1", "n1
 	// ("protobom-auto" itself is erased by the CycloneDX writer and re-generated by its reader with
 	// a number that depends on the writer's map order: only stream ser uses it)
 	"protobom-v0.4.1", "protobom-"}
-var textPool = []string{"x", "Y z", "v1.2.3", "é ü 漢字", "a:b+c", "tab\tsep", "q\"uote", "back\\slash", "<html>&amp;", "line\nbreak", "  padded  ", "\u2028ls", "🙂"}
-var plainNames = []string{"ACME", "Bob Builder", "Org (x)", "Jo: the one", "é-corp"}
+var textPool = []string{"x", "Y z", "v1.2.3", "é ü 漢字", "a:b+c", "tab\tsep", "q\"uote", "back\\slash", "<html>&amp;", "line\nbreak", "  padded  ", "\u2028ls", "🙂",
+	// values that look like the placeholders some format versions write for a missing version
+	"0.0.0", "0"}
+var plainNames = []string{"ACME", "Bob Builder", "Org (x)", "Jo: the one", "é-corp",
+	// white space inside a name is part of the name
+	"Bob  Builder", "Jo\u00a0Doe", "A\u2003B Ltd"}
 var sharedHashAlgos = []int{1, 2, 3, 4, 5, 6, 7, 8, 9, 10, 11, 12, 14, 15, 16, 17}
 var spdxNativePurposes = []int{1, 2, 5, 7, 12, 13, 14, 15, 16, 21, 22, 26}
 var spdxRefTypes = []int{4, 26, 29, 30, 31, 44, 46, 47}
